@@ -440,11 +440,13 @@ def ref_thermal_properties(a):
                 S = KB - KB * np.log(x)
                 C = np.full_like(freqs, KB)
             else:
-                F = KB * T * np.log(1 - np.exp(-x))
-                v = x / 2
-                S = freqs / (2 * T) * np.cosh(v) / np.sinh(v) - KB * np.log(2 * np.sinh(v))
-                e = np.exp(x)
-                C = KB * e * (x / (e - 1)) ** 2
+                # F = kT ln(1 - e^-x), S = k [x/(e^x - 1) - ln(1 - e^-x)], C = k x^2 e^x/(e^x - 1)^2,
+                # written with e^-x so that they are defined for every x > 0
+                em = np.exp(-x)
+                om = -np.expm1(-x)  # 1 - e^-x
+                F = KB * T * np.log(om)
+                S = KB * (x * em / om - np.log(om))
+                C = KB * x * x * em / (om * om)
             w = weights[:, None].astype(float)
             for c, arr in enumerate((F, S, C)):
                 # per q-point partial sums, then the sum over q-points (the kernel's order)
